@@ -4,10 +4,14 @@ import (
 	"bytes"
 	"compress/gzip"
 	"context"
+	"errors"
 	"fmt"
+	"io"
 	"net/http"
 	"net/http/httptest"
 	"runtime"
+	"strings"
+	"time"
 
 	connect "github.com/bufbuild/connect-go"
 	"github.com/bufbuild/connect-go/verifharness/internal/h"
@@ -439,6 +443,75 @@ func C09(r *h.Run) {
 		}
 	}
 
+	c09AfterRefusal(r)
+}
+
+// c09AfterRefusal: "at every position in a stream". A reader that goes on after a refusal (a bidi
+// handler; a raw conn) finds the stream positioned on the next envelope: the refused message's
+// bytes — all of them, whatever their number — are never handed to user code, and the messages of
+// at most N bytes that follow are accepted.
+func c09AfterRefusal(r *h.Run) {
+	sizes := []int{17, 70000, 4 << 20, 4<<20 + 1, 5<<20 + 7}
+	if r.Thorough() {
+		sizes = append(sizes, 4<<20-1, 8<<20+1, 12<<20)
+	}
+	for si, size := range sizes {
+		for _, proto := range []string{"connect", "grpc", "grpcweb"} {
+			if !r.Thorough() && size > 1<<20 && (si+len(proto))%2 != 0 {
+				continue
+			}
+			cfg := envCfg{Proto: proto, Max: 16}
+			// the refused payload: zeros, with what looks like envelopes of small messages {66 66}
+			// wherever a reader that lost its position might resume
+			refused := make([]byte, size)
+			for _, off := range []int{4 << 20, 4<<20 - 5, 65536, 32768, 512, 16, 17} {
+				if off+7 <= size {
+					copy(refused[off:], h.Frame(0, []byte{0x66, 0x66}))
+				}
+			}
+			body := append(append(h.Frame(0, []byte{1}), h.Frame(0, refused)...), h.Frame(0, []byte{7})...)
+			var obs []string
+			handler := connect.NewBidiStreamHandler("/verif.Svc/M", func(_ context.Context, s *connect.BidiStream[h.Raw, h.Raw]) error {
+				for i := 0; i < 12; i++ {
+					m, err := s.Receive()
+					if errors.Is(err, io.EOF) {
+						obs = append(obs, "eof")
+						return nil
+					}
+					if err != nil {
+						obs = append(obs, "err "+connect.CodeOf(err).String())
+						continue
+					}
+					obs = append(obs, "msg "+h.Hex(m.B))
+				}
+				return nil
+			}, cfg.handlerOpts()...)
+			req := httptest.NewRequest("POST", "/verif.Svc/M", nil)
+			req.ProtoMajor, req.ProtoMinor = 2, 0
+			req.Body = h.NewChunkBody([][]byte{body}, h.FinCleanEOF)
+			req.Header.Set("Content-Type", cfg.contentType(false))
+			rec := httptest.NewRecorder()
+			timedOut, p := withWatchdog(20*time.Second, func() { handler.ServeHTTP(rec, req) })
+			in := map[string]any{"proto": proto, "kind": "bidi", "read_limit": 16, "request": fmt.Sprintf("message {01}, then a message of %d bytes, then message {07}", size), "handler": "calls Receive until io.EOF, going on after errors"}
+			r.Eval("after_refusal", fmt.Sprint(proto, size))
+			if timedOut || p != nil {
+				r.Fail(h.Failure{Key: "limit/panic", Family: "after_refusal", What: fmt.Sprint("hang or panic: ", p), Input: in})
+				continue
+			}
+			r.Sample("after_refusal", map[string]any{"in": in, "observed": obs})
+			ok := len(obs) == 4 && obs[0] == "msg 01" && strings.HasPrefix(obs[1], "err ") && obs[2] == "msg 07" && obs[3] == "eof"
+			if !ok {
+				key := "limit/within-limit-refused"
+				for _, o := range obs {
+					if strings.HasPrefix(o, "msg ") && o != "msg 01" && o != "msg 07" {
+						key = "limit/oversize-delivered"
+					}
+				}
+				r.Fail(h.Failure{Key: key, Family: "after_refusal", What: "after a message beyond the limit was refused, the reader is not positioned on the next envelope: bytes of the refused message reach user code as messages, or the valid messages that follow are lost",
+					Input: in, Expected: []string{"msg 01", "err <the refusal>", "msg 07", "eof"}, Actual: obs})
+			}
+		}
+	}
 }
 
 func min(a, b int) int {
